@@ -30,6 +30,7 @@ def extra(tier):
     res += hist_probe.fanout_order_probe()
     # process-global NumPy state (np.seterr) must survive every differentiation, including the ones that raise inside a rule
     enga.init()
+    res += hist_probe.returned_value_probe()
     res += [r for r in lapack_probe.run(runner.SEED) if "np.geterr" in r["key"]]
     return res
 
